@@ -107,6 +107,13 @@ func genCCModel(r *RNG) ccModel {
 		switch r.Intn(5) {
 		case 0:
 			c.server = ccPrinc{nt: 0, realm: []byte("X-CACHECONF:"), comps: [][]byte{[]byte("krb5_ccache_conf_data"), []byte("fast_avail"), []byte("krbtgt/" + realm + "@" + realm)}}
+			// (the realm marks a configuration entry, whatever the name in it: other writers keep entries of their own there)
+			switch r.Intn(4) {
+			case 0:
+				c.server.comps = [][]byte{[]byte("app_ccache_conf_data"), []byte("refresh_time")}
+			case 1:
+				c.server.comps = nil
+			}
 		case 1:
 			c.server = ccPrinc{nt: 2, realm: []byte(realm), comps: [][]byte{[]byte("krbtgt"), []byte(realm)}}
 		}
@@ -183,6 +190,13 @@ func goCCString(c *credentials.CCache) string {
 		x.kt = sx16("keytype", cr.Key.KeyType)
 		x.key = cr.Key.KeyValue
 		x.t = [4]uint32{uint32(cr.AuthTime.Unix()), uint32(cr.StartTime.Unix()), uint32(cr.EndTime.Unix()), uint32(cr.RenewTill.Unix())}
+		// the four times are signed 32-bit counts of seconds (a time before 1970, the -1 some writers use for "never"):
+		// what the application gets is the sign extension of what the file holds, not a date after 2038
+		for j, tm := range []time.Time{cr.AuthTime, cr.StartTime, cr.EndTime, cr.RenewTill} {
+			if u := tm.Unix(); int64(int32(uint32(u))) != u {
+				notSigned += fmt.Sprintf(" not-sign-extended:time%d=%d", j, u)
+			}
+		}
 		if cr.IsSKey {
 			x.skey = 1
 		}
@@ -426,6 +440,12 @@ func c15Client(m *Model, v *Verdict, rng *RNG) {
 			}
 			if conf {
 				c.server = ccPrinc{realm: []byte("X-CACHECONF:"), comps: [][]byte{[]byte("krb5_ccache_conf_data"), []byte("pa_type")}}
+				switch rng.Intn(3) {
+				case 0:
+					c.server.comps = [][]byte{[]byte("app_ccache_conf_data"), []byte("refresh_time")}
+				case 1:
+					c.server.comps = nil
+				}
 				c.ticket = []byte("2")
 			}
 			return c
